@@ -314,3 +314,9 @@ Proof.
   - destruct Hok as [Ho Hr]. destruct (step s0 o) as [oc s1] eqn:Es. destruct oc; try discriminate.
     apply (IH s1); [eapply chain_step; eassumption|assumption|assumption].
 Qed.
+
+Theorem receive_checked_rejects_corrupt s f : op_receive_checked s f false = (Failed, s).
+Proof. unfold op_receive_checked. destruct (negb (is_snapshot f) && negb (extends_pos s f)); reflexivity. Qed.
+Theorem receive_checked_rejects_nonextending s f ok :
+  is_snapshot f = false -> extends_pos s f = false -> op_receive_checked s f ok = (Failed, s).
+Proof. intros H1 H2. unfold op_receive_checked. rewrite H1, H2. reflexivity. Qed.
